@@ -665,6 +665,11 @@ def striphir_rule(ctx, r):
     g = facts.fn(RCFG + "::is_fixed_strings")
     ebg = ExprBuilder(g)
     hl = g.calls_to("grep_regex::config::has_line_terminator")
+    # the iterator spelling of a scan: patterns.iter().any(|p| has_line_terminator(lineterm, p)) — `any` visits every pattern
+    # until one answers true, and its answer stands for the scan's
+    HLT = "grep_regex::config::has_line_terminator"
+    hl = hl + [c for c in g.calls() if c.path == "core::iter::traits::iterator::Iterator::any" and
+               any(x.k == "closure" and x[1] in facts.fns and facts.fns[x[1]].calls_to(HLT) for x in walk(ebg.operand(c.args[1])))]
     if len(hl) < 2:
         r.bad("fixed|scan", "is_fixed_strings scans the patterns for the terminator at %d site(s), expected 2" % len(hl), fn=g)
     for i, c in enumerate(hl):
@@ -676,7 +681,7 @@ def striphir_rule(ctx, r):
             r.bad("fixed|scan|%d" % i, "a pattern containing the line terminator still takes the literal path", fn=g, loc=c.loc)
     # every scan sits in a loop over the patterns (all patterns are scanned, not just the first)
     for i, c in enumerate(hl):
-        if c.bb in C.reach_after(g, c.bb):
+        if c.bb in C.reach_after(g, c.bb) or c.path.endswith("Iterator::any"):
             r.ok("fixed|loop|%d" % i, "terminator scan runs inside the loop over all patterns", fn=g)
         else:
             r.bad("fixed|loop|%d" % i, "the terminator scan at %s is not inside a loop over the patterns" % c.loc, fn=g, loc=c.loc)
